@@ -674,6 +674,35 @@ pub fn record_directed(out: &mut TraceOut, thorough: bool) -> Value {
     if thorough {
         customs.push(vec![4, 0x99, 0, 0, 0xFF, 0xFF, 0xFF, 0xFF, 0xFF, 0x10, 0, 0, 0, 0, 0, 0]); // 1020 x 255 (32656 bytes)
     }
+    // a doctored block followed by the genuine block of the same type (same transfer, and on a retry): the last one counts
+    for (ti, t) in crate::ctl::ALL_TYPES.iter().enumerate() {
+        let real = t.to_bytes().to_vec();
+        let mut doc = real.clone();
+        let k = if real[0] == 4 { 4 } else { 5 };
+        doc[k] = doc[k].wrapping_add(2);
+        let (w, h) = t.dimensions();
+        let page = flipdot_core::Page::new(flipdot_core::PageId(ti as u8), w, h).as_bytes().to_vec();
+        let mut v = vec![Message::RequestOperation(a, Operation::ReceiveConfig), sd(0, &doc)];
+        if ti % 2 == 0 {
+            v.push(sd(0, &real));
+            v.push(Message::DataChunksSent(ChunkCount(2)));
+        } else {
+            v.push(Message::DataChunksSent(ChunkCount(9)));
+            v.push(Message::RequestOperation(a, Operation::ReceiveConfig));
+            v.push(sd(0, &real));
+            v.push(Message::DataChunksSent(ChunkCount(1)));
+        }
+        v.push(Message::QueryState(a));
+        v.push(Message::RequestOperation(a, Operation::ReceivePixels));
+        let mut n = 0u16;
+        for (i, c) in page.chunks(16).enumerate() {
+            v.push(sd((i * 16) as u16, c));
+            n += 1;
+        }
+        v.push(Message::DataChunksSent(ChunkCount(n)));
+        v.push(Message::QueryState(a));
+        run(out, v, PageFlipStyle::Manual);
+    }
     // every known (family, id) with altered height / width fields
     for t in crate::ctl::ALL_TYPES {
         for (k, val) in [(4usize, 9u8), (5, 0x1C), (7, 0x31), (8, 1), (9, 0x10)] {
